@@ -14,6 +14,17 @@ CLAIMED = {
  "C08": (DIFF + " (SGR fold; pen observed through hook and through printed/blanked cells)", "Every SGR dispatched is compared (decoded operation list and resulting pen), and every cell printed or blanked afterwards is compared through the public accessors.", "reference SGR decoder trusted; malformed colours (U6) not judged", "5 C08"),
  "C17": (DIFF + " (save/restore steps, per-screen saved contexts via hook)", "Every save/restore spelling is compared with the model's per-screen saved context (position, pen, origin, auto-wrap) right at the step, plus the visible consequences afterwards.", "reference model trusted", "5 C17"),
  "C18": (DIFF + " (tab stop set via hook + HT/CHT/CBT landing columns)", "Tab-stop set compared after every HTS/CTC/TBC and every resize; HT/CHT/CBT landing columns compared.", "reference model trusted", "5 C18"),
+ "C02": ("invariant assertions after every public call (public API + read-only hook) + differential monitor for the wrap-pending clause", "After every feed_str/feed/resize of ~8e5 (quick) histories, incl. all 3-call sequences over 53 atoms with resizes on tiny screens and heavy alt-screen/resize/save-restore mixing, the geometry invariants are asserted directly; Changes handled three ways.", "hook reports hidden fields truthfully; sizes up to 60x20", "5 C02"),
+ "C03": ("exhaustive table comparison against an independent table-driven reference parser + dispatch product + pair/triple memorylessness + stream differential", "The (state x scalar value) table is enumerated completely: 14 states, each through 2-4 (quick) / 5-8 (thorough) backgrounds, x all 1,112,064 scalars, with flush suffixes; function, next state and hooked registers must equal the reference. Dispatch product, all ordered pairs of a sequence pool and streams on top.", "reference parser (harness/src/model/parser.rs) transcribes Williams' table correctly; numbers beyond the promised ranges (U5), malformed SGR colours (U6) and >1 collected intermediate are not judged", "5 C03"),
+ "C09": ("oracle computed from the input, over generated texts x every width", "text() and TextUnwrapper output must reproduce the input lines for ~6e4 (quick) texts, each at two sizes, every width 1..40 (1..120) visited.", "comparison modulo trailing Unicode white space (avt trims with str::trim_end)", "5 C09"),
+ "C10": ("relational monitor around every resize (logical lines and cursor place before vs after)", "~2e5 (quick) resizes of arbitrary primary-screen contents checked against the re-wrap relation.", "wrap-pending cursor counted as the position after the last column; trailing blanks (any pen) not compared", "5 C10"),
+ "C12": ("N-execution comparison (whole / pieces / per-character) incl. all 2^(n-1) splittings of short inputs", "Same visible screen, cursor, dump() and hooked modes for every chunking tried; lines() under unlimited scrollback.", "lines() compared only with unlimited scrollback; on the alternate screen / finite limits after a normalising empty feed_str", "5 C12"),
+ "C13": ("bound assertion after every feed_str/resize with Changes consumed, partially consumed or dropped", "lines().len() bound asserted after ~4e5 (quick) calls under 9 finite limits incl. bulk output and narrowing resizes; alternate screen = exactly rows.", "limits up to 1000 in the workloads", "5 C13"),
+ "C14": ("two-execution conservation check (limit L vs unlimited), TextCollector streams compared", "Handed-out ++ retained lines equal the unlimited twin's lines cell-for-cell for ~2.5e4 (quick) sessions; TextCollector equal across limits/chunkings.", "sessions containing an accidental RIS are skipped; TextCollector compared modulo trailing empty strings", "5 C14"),
+ "C15": ("snapshot/diff around every call vs the returned changed-line set", "Every row whose cells changed during a call must be reported; ~8e5 (quick) histories incl. all 3-call sequences; every cell-mutating function kind seen >=500 times in isolation.", "rows that exist only before or only after a resize are not judged; soft-wrap marks are not cells", "5 C15"),
+ "C16": ("relational monitor over alternate-screen excursions (size unchanged: identity; resized: re-wrap relation) + differential rows for the switch", "~4e4 (quick) excursions over the three mode numbers (mixed), half with resize chains: primary text()/lines() identical, entry screen blank in the current pen, 1049 cursor restore, re-wrap relation after resizes, geometry invariants after every call.", "under a finite limit rows may leave at the top after a narrowing resize (trimmed), the cursor-offset clause is then not judged", "5 C16"),
+ "C19": ("real-vs-fresh comparison after ESC c (public API, dump string, hooked state) + probe/random continuations", "~3e4 (quick) arbitrary histories with the parser parked in each of the 14 states, then ESC c, compared with a fresh terminal immediately and after every continuation call.", "fresh terminal built with the same size/limit through the public Builder", "5 C19"),
+ "C20": ("before/after equality monitor over enumerated and generated inert sequences (what is 'unimplemented' comes from the reference dispatch table)", "~1.1e4 enumerated inert sequences x 6 prior states x {feed_str, feed} and ~1e5 random ones after random histories: nothing observable (incl. dump() and hooked state) changes, no changed line reported, parser back in ground.", "reference dispatch table decides which sequences must be inert", "5 C20"),
 }
 
 PENDING = ["C01","C02","C03","C09","C10","C11","C12","C13","C14","C15","C16","C19","C20"]
